@@ -25,7 +25,7 @@ ASSUMPTIONS = ["CPython audit events (open, os.mkdir, os.rename, os.remove, os.r
                "secondary evidence; the tree snapshot is the ground truth",
                "access times are not part of 'modified'"]
 TIMEOUT = 300
-VARIANTS = [(flag, cache, meta) for flag in ("arg", "config", "arg_over_dump") for cache in (None, "4KiB", "1MiB")
+VARIANTS = [(flag, cache, meta) for flag in ("arg", "config", "arg_over_dump", "config_shared") for cache in (None, "4KiB", "1MiB")
             for meta in (False, True)]
 
 
@@ -53,6 +53,23 @@ def open_ro(sc, variant, writable=False):
     flag, cache, meta = VARIANTS[variant]
     mb = {None: None, "4KiB": 4 * env.KIB, "1MiB": 1}[cache]
     mpath = sc.path("meta") if meta else None
+    if flag == "config_shared":
+        # one configuration dictionary that says read-only: used with an explicit read_only=False to fill the store, and
+        # afterwards on its own (the very same dictionary object)
+        cfg = getattr(sc, "_shared_cfg", None)
+        if cfg is None:
+            cfg = {"type": "filesystem", "path": sc.path("data"), "readonly": True}
+            if mpath:
+                cfg["metadata_path"] = mpath
+            sc._shared_cfg = cfg
+        if writable:
+            return FilesystemStorageBackend(config=cfg, read_only=False)
+        b = StorageBackend.create("filesystem", cfg)
+        if mb is not None and b._memory_cache is None:
+            from twosigma.memento.storage_base import MemoryCache
+
+            b._memory_cache = MemoryCache(mb)
+        return b
     if writable:
         if flag == "config":
             # the store is first opened writable from a configuration as well (and that backend stays alive while the
